@@ -73,7 +73,7 @@ CHECKS['C06'] = dict(
    note=COMMON_NOTE + '; one known finding (F-C06-LOOSE-TOL: coarse tolerance exits before the fixed 1e-4 residual gate can pass)', ref='DESIGN.md §5 C06')
 CHECKS['C07'] = dict(
    technique='Coq proof (Newton step and relative-tolerance facts on every Ok, Taylor-Lagrange second-order residual bound for polynomial targets, no panic and at most max(cap,1) iterations, exact-root acceptance, one-step monotonicity) + bit-for-bit correspondence + exact oracle',
-   text='9 theorems: c07_converges_to_extreme_root (exact arithmetic: started right of the largest root R > 0 of c*prod(x - r_i) with all roots real, with an explicit budget, an x is returned with R <= x and (x-R)*100 <= (degree-1)*tol*x), c07_rdprod_is_derivative, c07_sound and c07_sound_simple (Ok x => x = x\' - g x\'/g\' x\', |x - x\'|*100 < tol*|x| or g x = 0, and g x = g\'\'(xi)/2 (x-x\')^2 hence the stated residual bound), c07_total (all instances), c07_zero_root, c07_stale_100_repaired, c07_monotone_partial (one step under convexity); the mirror case left of the smallest root, extreme roots <= 0 and float effects are decided by the oracle',
+   text='11 theorems (new: c07_nrm_reflect, the solver model commutes with x -> -x, errors included; c07_converges_to_extreme_root_mirror, convergence to the smallest root < 0 from the left): c07_converges_to_extreme_root (exact arithmetic: started right of the largest root R > 0 of c*prod(x - r_i) with all roots real, with an explicit budget, an x is returned with R <= x and (x-R)*100 <= (degree-1)*tol*x), c07_rdprod_is_derivative, c07_sound and c07_sound_simple (Ok x => x = x\' - g x\'/g\' x\', |x - x\'|*100 < tol*|x| or g x = 0, and g x = g\'\'(xi)/2 (x-x\')^2 hence the stated residual bound), c07_total (all instances), c07_zero_root, c07_stale_100_repaired, c07_monotone_partial (one step under convexity); the mirror case left of the smallest root, extreme roots <= 0 and float effects are decided by the oracle',
    note=COMMON_NOTE + '; one known finding (F-C07-OVERFLOW: coefficients >= 2^1000)', ref='DESIGN.md §5 C07')
 CHECKS['C17'] = dict(
    technique='Coq proof (exact {:.p} formatting of binary64 in integer arithmetic with its half-to-even rounding contract; string-level round trips of Display through the parser models for default and every precision) + exact text correspondence with Rust formatting + read-back oracle through the real parsers',
